@@ -41,7 +41,8 @@ def main() -> int:
     if args.replay:
         return driver.replay(spec["module"], args.replay)
     t = spec[args.tier]
-    rc = driver.run_check(spec["module"], args.tier, t["runs"], chunk=t.get("chunk", 8))
+    rc = driver.run_check(spec["module"], args.tier, t["runs"], chunk=t.get("chunk", 8),
+                          wall=t.get("wall"))
     if rc == 0 and "post" in spec:
         import importlib
 
